@@ -61,8 +61,19 @@ def _bv8(t):
 
 
 def _concretize(e, limit=64):
-    """sound concretisation of a z3 Int/BV term (forks over every feasible value)"""
-    return symex.ctx().concretize(e, limit=limit)
+    """sound concretisation of a z3 Int/BV term (forks over every feasible value).  When the solver gives up on the
+    enumeration (hard bit-vector conditions, e.g. a length read from wrongly de-obfuscated bytes) the path is cut and
+    counted as inconclusive - that is not an engine error and never a success."""
+    c = symex.ctx()
+    try:
+        return c.concretize(e, limit=limit)
+    except HarnessError as ex:
+        if 'solver unknown' not in str(ex):
+            raise
+        c.stats.inconclusive += 1
+        if c.explorer is not None:
+            c.explorer.inconclusive.append(('concretize_symbolic_length', None))
+        raise symex.PathAbort('solver unknown while concretising a symbolic length; path counted as inconclusive')
 
 
 _FACTS = {'ctx': None, 'ids': {}}
@@ -1682,7 +1693,12 @@ def harvest_vectors(path=TEST_VECTORS):
     (message object, bytes) pair that went through MessageDataclass.serialize / deserialize.
     returns (records, outcomes): records = [(kind, obj, data, compressed, testname)]"""
     P, M, O = _targets()
-    mod = _load_test_module(path)
+    try:
+        mod = _load_test_module(path)
+    except symex.EngineSignal:
+        raise
+    except BaseException as e:  # noqa  (a tree that no longer has a name the vector file imports: left to the harness)
+        return [], {'<import of the repository vector file>': f'raise:{type(e).__name__}: {e}'}
     rec = []
     cur = [None]
     MD = P.MessageDataclass
@@ -1944,53 +1960,80 @@ def validate(path=TEST_VECTORS, deep=True, text_deep=False):
     notes.append('zlib stand-in obeys decompress(compress(x)) == x and rejects untagged buffers like zlib rejects garbage; inet_aton/ntoa agree')
     notes.append(_validate_decompressobj(rng))
 
-    # 4. the repository's own vectors: real codec vs stubbed codec, test by test
+    # RULE for everything below: the code under test may be broken.  A vector test that fails through the real code, or real
+    # code that raises, is NOT a harness error (the harnesses decide it and report a VIOLATION); only a *difference between
+    # the real and the stubbed run of the same code on the same concrete input* is (the stand-ins misrepresent it).
+
+    # 4. the repository's own vectors: real codec vs stubbed codec, test by test (pass/fail must agree)
     rec, real_out = harvest_vectors(path)
-    mod = _load_test_module(path)
+    if list(real_out) == ['<import of the repository vector file>']:
+        notes.append(f'repository vector file could not be imported on this tree ({real_out[list(real_out)[0]]}); '
+                     'vector-based stub validation skipped, the harnesses decide')
+        rec, real_out = [], {}
     stub_out = {}
-    with installed(True):
-        for name, fn, kw in _test_calls(mod):
-            stub_out[name] = _outcome(fn, kw)
-    diff = {k: (real_out[k], stub_out.get(k)) for k in real_out if real_out[k] != stub_out.get(k)}
+    if real_out:
+        mod = _load_test_module(path)
+        with installed(True):
+            for name, fn, kw in _test_calls(mod):
+                stub_out[name] = _outcome(fn, kw)
+
+    def coarse(o):
+        return o if o is None or o == 'pass' or 'Skip' in o else 'fail'
+    diff = {k: (real_out[k], stub_out.get(k)) for k in real_out if coarse(real_out[k]) != coarse(stub_out.get(k))}
     if diff:
         raise HarnessError(f'stubbed codec disagrees with the real codec on repository test vectors: {dict(list(diff.items())[:5])}')
     failing = sorted(k for k, v in real_out.items() if v != 'pass' and 'Skip' not in v)
     notes.append(f'{len(real_out)} repository test vectors give the same outcome through the real and the stubbed codec'
                  + (f' ({len(failing)} fail on this tree in both: {failing[:3]})' if failing else ''))
 
-    # 5. every harvested (object, bytes) pair again, this time with the buffer as SBytes
+    # 5. every harvested (object, bytes) pair (from vector tests that PASS through the real code) again, with SBytes buffers
     nrec = 0
     with installed(True):
         for kind, obj, data, comp, tname in rec:
             nrec += 1
             cls = type(obj)
             data_s = data
-            if kind == 'ser':
-                got = obj.serialize()
-                if not isinstance(got, SBytes) or got.concrete() != data_s:
-                    raise HarnessError(f'stubbed serialize differs on vector of {tname}')
             try:
+                if kind == 'ser':
+                    got = obj.serialize()
+                    if not isinstance(got, SBytes) or got.concrete() != data_s:
+                        raise HarnessError(f'stubbed serialize differs from the real one on vector of {tname}')
                 back = cls.deserialize(0, SBytes(list(data_s)))
+            except HarnessError:
+                raise
             except Exception as e:  # noqa
-                raise HarnessError(f'stubbed deserialize raised on vector of {tname}: {e!r}')
+                raise HarnessError(f'stubbed codec raised on a vector the real codec handles ({tname}): {e!r}')
             if kind == 'de' and eq_formula(back, obj) is not True:
-                raise HarnessError(f'stubbed deserialize differs on vector of {tname}')
+                raise HarnessError(f'stubbed deserialize differs from the real one on vector of {tname}')
     notes.append(f'{nrec} harvested (message, bytes) pairs re-run with SBytes buffers: identical objects / bytes')
 
-    # 6. obfuscation, concrete keys/lengths through real vs stubbed module
-    n = 0
+    # 6. obfuscation, concrete keys/lengths through real vs stubbed module: same bytes or the same exception type
+    def outcome(fn):
+        try:
+            r = fn()
+            return ('ok', r.concrete() if isinstance(r, SBytes) else bytes(r))
+        except symex.EngineSignal:
+            raise
+        except HarnessError:
+            raise
+        except Exception as e:  # noqa
+            return ('raise', type(e).__name__)
+    n, raising = 0, []
     for ln in list(range(0, 10)) + [126, 127, 128, 129, 131, 132, 133, 140, 260]:
         key = bytes(rng.randrange(256) for _ in range(4))
         data = bytes(rng.randrange(256) for _ in range(ln))
-        want = O.encode(data, key)
-        wd = O.decode(key + data)
+        want = outcome(lambda: O.encode(data, key))
+        wd = outcome(lambda: O.decode(key + data))
         with installed(True):
-            got = O.encode(SBytes(list(data)), SBytes(list(key)))
-            gd = O.decode(SBytes(list(key + data)))
-        if got.concrete() != want or gd.concrete() != wd:
-            raise HarnessError(f'stubbed obfuscation differs for length {ln}')
+            got = outcome(lambda: O.encode(SBytes(list(data)), SBytes(list(key))))
+            gd = outcome(lambda: O.decode(SBytes(list(key + data))))
+        if got != want or gd != wd:
+            raise HarnessError(f'stubbed obfuscation differs from the real one for length {ln}: encode {want}/{got}, decode {wd}/{gd}')
+        if want[0] == 'raise' or wd[0] == 'raise':
+            raising.append(ln)
         n += 1
-    notes.append(f'obfuscation.encode/decode: real == stubbed on {n} concrete key/length cases (lengths 0..260)')
+    notes.append(f'obfuscation.encode/decode: real == stubbed on {n} concrete key/length cases (lengths 0..260)'
+                 + (f'; the real code RAISES at lengths {raising} on this tree - left to the obfuscation harness' if raising else ''))
 
     # 7. text codecs on symbolic bytes (utf-8-sig, ascii, latin-1, cp1252, errors=...) against CPython
     from engine import codec_text
